@@ -30,8 +30,8 @@ type outcome struct {
 
 func (o outcome) String() string {
 	switch o.kind {
-	case "E":
-		return "E"
+	case "E", "T":
+		return o.kind
 	case "S":
 		return fmt.Sprintf("S %d %d", o.n, o.salt)
 	}
@@ -69,6 +69,10 @@ func (s *scripted) Resolve(ctx context.Context, q query.Query, buf []byte) (int,
 	switch o.kind {
 	case "E":
 		return 0, resolver.ResolveInfo{}, errors.New("scripted upstream error")
+	case "T":
+		// the upstream hangs: the request context expires
+		<-ctx.Done()
+		return 0, resolver.ResolveInfo{}, ctx.Err()
 	case "S":
 		return synthResp(q.ID, o.n, o.salt, buf), resolver.ResolveInfo{}, nil
 	}
@@ -254,8 +258,8 @@ func (r *Rng) respLen(adv int) int {
 
 func parseOutcomeToks(toks []string) (outcome, bool) {
 	switch {
-	case len(toks) == 1 && toks[0] == "E":
-		return outcome{kind: "E"}, true
+	case len(toks) == 1 && (toks[0] == "E" || toks[0] == "T"):
+		return outcome{kind: toks[0]}, true
 	case len(toks) == 2 && toks[0] == "H":
 		return outcome{kind: "H", raw: unhx(toks[1])}, true
 	case len(toks) == 3 && toks[0] == "S":
@@ -272,7 +276,7 @@ func init() {
 		var cur outcome
 		var curMu sync.Mutex
 		up := &scripted{pick: func(q query.Query) outcome { curMu.Lock(); defer curMu.Unlock(); return cur }}
-		srv, err := startServer(up, 64, 2*time.Second)
+		srv, err := startServer(up, 64, 400*time.Millisecond)
 		if err != nil {
 			return err
 		}
@@ -367,6 +371,9 @@ func init() {
 			switch r.Intn(10) {
 			case 0:
 				o = outcome{kind: "E"}
+				if r.Chance(4) {
+					o = outcome{kind: "T"}
+				}
 			case 1:
 				o = outcome{kind: "H", raw: r.Bytes(r.Intn(40))}
 			default:
